@@ -79,6 +79,11 @@ pub fn verif_root() -> PathBuf {
     PathBuf::from("/verif")
 }
 
+/// for fuzz targets: expected panics (injected faults, library refusals) stay quiet
+pub fn silence_panics_except_violation() {
+    std::panic::set_hook(Box::new(|_| {}));
+}
+
 pub fn silence_panics() {
     std::panic::set_hook(Box::new(|_| {}));
 }
@@ -410,6 +415,14 @@ pub fn parent(plan: &Plan, a: &ParentArgs) -> i32 {
     let _ = std::fs::remove_dir_all(&tmp);
     std::fs::create_dir_all(&tmp).expect("tmp dir");
     let known_list = load_known(&a.property);
+    // replays/ holds the findings of the latest run of each property only
+    if let Ok(rd) = std::fs::read_dir(verif_root().join("replays")) {
+        for e in rd.flatten() {
+            if e.file_name().to_string_lossy().starts_with(&format!("{}-", a.property)) {
+                let _ = std::fs::remove_file(e.path());
+            }
+        }
+    }
 
     let mut violation_lines: Vec<String> = vec![];
     let mut n_viol = 0i64;
